@@ -182,7 +182,49 @@ def check_c01(tier):
     return run_e1("C01", tier, stages, dict(undo_probe=True), time_budget=budget(tier, 100, 1500))
 
 
+SEG_KINDS = ("del_node", "del_edge", "add_edge", "add_node", "swap", "paint")
+
+
+def check_c07(tier):
+    q = tier == "quick"
+    stages = [
+        dict(name="seg2d-bfs", worlds=["seg-2d-core"], seeds=HAND_SEEDS, depth=2 if q else 3, kinds=SEG_KINDS,
+             max_states=None if q else 6000),
+        dict(name="seg2d-iou", worlds=["seg-2d"], seeds=HAND_SEEDS + ["fix6"], depth=1 if q else 2, kinds=SEG_KINDS),
+        dict(name="seg3d-bfs", worlds=["seg-3d"], seeds=HAND_SEEDS, depth=1 if q else 2, kinds=SEG_KINDS),
+    ]
+    return run_e1("C07", tier, stages, dict(undo_probe=True), time_budget=budget(tier, 120, 2400))
+
+
+def check_c08(tier):
+    q = tier == "quick"
+    mask_kinds = ("del_node", "add_node", "paint", "add_edge")
+    stages = [
+        dict(name="core-bfs", worlds=["seg-2d-core"], seeds=HAND_SEEDS, depth=2, kinds=mask_kinds if q else SEG_KINDS),
+        dict(name="scales-2d", worlds=["seg-2d-aniso", "seg-2d-iso", "seg-2d-all", "seg-2d-aniso-ell"], seeds=HAND_SEEDS,
+             depth=1 if q else 2, kinds=SEG_KINDS),
+        dict(name="3d", worlds=["seg-3d-aniso"] if q else ["seg-3d", "seg-3d-aniso", "seg-3d-all"], seeds=HAND_SEEDS,
+             depth=1 if q else 2, kinds=mask_kinds if q else SEG_KINDS),
+    ]
+    return run_e1("C08", tier, stages, dict(undo_probe=True), time_budget=budget(tier, 150, 3000),
+                  assumptions=["numpy reference for area/position uses rel_tol 1e-12; the from-scratch differential oracle is exact",
+                               "2D perimeter/circularity only with isotropic spacing (skimage limitation)"])
+
+
+def check_c09(tier):
+    q = tier == "quick"
+    stages = [
+        dict(name="seg2d-bfs", worlds=["seg-2d"], seeds=HAND_SEEDS, depth=2, kinds=SEG_KINDS if not q else ("del_node", "add_node", "paint", "add_edge", "del_edge")),
+        dict(name="aniso-given", worlds=["seg-2d-aniso", "seg-2d-fd"], seeds=HAND_SEEDS + ["fix6"], depth=1 if q else 2, kinds=SEG_KINDS),
+        dict(name="3d", worlds=["seg-3d"], seeds=HAND_SEEDS, depth=1 if q else 2, kinds=SEG_KINDS),
+    ]
+    return run_e1("C09", tier, stages, dict(undo_probe=True), time_budget=budget(tier, 150, 3000))
+
+
 CHECKS = {
+    "C07": check_c07,
+    "C08": check_c08,
+    "C09": check_c09,
     "C01": check_c01,
     "C03": check_c03,
     "C04": check_c04,
